@@ -537,6 +537,9 @@ class Engine:
         if isinstance(base, Obj):
             key = (base.name, attr)
             if key in self.schema.fields:
+                rh = getattr(self.ext, 'read_env', None)
+                if rh is not None:
+                    rh(self, ctx, key)       # a shared variable is read: whatever other threads did up to now becomes visible
                 yield ctx, self.ref_value(ctx, Ref(base.name, attr))
                 return
             if key in self.schema.links:
